@@ -127,6 +127,9 @@ func runC12(r *Run) {
 			if rl.kind == "regexp" && !rl.prefix && strings.Contains(rl.pattern, ":") {
 				rl.prefix = true
 			}
+			if rl.pattern == "" {
+				rl.prefix = true // an empty line is a blank line to the text loader, not a rule for the root
+			}
 			rules = append(rules, rl)
 		}
 		if r.Rng.Intn(25) == 0 { // malformed stream: unknown type / missing default
